@@ -190,6 +190,29 @@ CLAIMED["C06"] = dict(
     technique=E2 + "; rely/guarantee contract for the collective, 2-safety trace comparison; known-findings protocol",
 )
 
+CLAIMED["C07"] = dict(
+    category="proof",
+    text=("The real _merge_and_block_parameters / _merge_and_block_gradients of FSDPDistributor and HSDPDistributor are executed on view proxies with split-tensor-block recovery "
+          "replaced by its contract (C15) and torch.split by its view contract: blocks are, in order, the default blocks of every recovered piece (extents <= max dim), the per-piece "
+          "and per-parameter bookkeeping is exact, gradients are recovered with the same (shape, start, end) and blocked identically so gradient block k has parameter block k's box, "
+          "an empty shard yields no blocks - all extents symbolic. compile_fsdp_parameter_metadata's index arithmetic is proved for all integers. HSDP's update_params is proved "
+          "under the all-gather contract (as C06)."),
+    design_ref="DESIGN.md §4/C07",
+    note=("recovery by contract (C15), pieces per parameter enumerated 0..3, chunk counts enumerated; FSDP shard metadata partition is external; simulated-shard comparison with serial "
+          "Shampoo on the recovered pieces and exactly-once coverage across shard ranks are bounded (1..8 ranks); HSDP on a 2-D mesh is not replayed natively"),
+    technique=E2 + "; contract composition C15 + C05 + C06",
+)
+CLAIMED["C08"] = dict(
+    category="proof",
+    text=("The real _get_params_or_grads and block-info constructors of FullyShardDistributor and HybridShardDistributor are executed on DTensor proxies with symbolic local sizes: "
+          "parameters and gradients are filtered by the same predicate on the parameter (local numel > 0), an absent gradient stays None, block k's BlockInfo.param is the parameter "
+          "owning block k, strict zips fail only on a count mismatch - for all local sizes and all gradient-presence patterns of three parameters. HybridShard's update_params is "
+          "proved under the all-gather contract (as C06). Blocking, step, assignment and buffers are inherited from C05, C01-C04, C14."),
+    design_ref="DESIGN.md §4/C08",
+    note="DTensor.to_local contract assumed; DTensor runs on simulated ranks with empty local shards and absent gradients vs serial Shampoo on the local tensors are bounded (world 2..4)",
+    technique=E2 + "; contract composition with C05/C14/C06",
+)
+
 NOT_YET = "no check committed yet for this property (work in progress; see DESIGN.md for the planned contract)"
 
 
